@@ -349,6 +349,12 @@ def render(node):
 
 
 def render_xml(v):
+    if isinstance(v, Doc):
+        return render(v)
+    if isinstance(v, dict):
+        return {k: render_xml(x) for k, x in v.items()}
+    if isinstance(v, list):
+        return [render_xml(x) for x in v]
     return v
 
 
@@ -667,6 +673,9 @@ class RecGen:
     def xml_elem(self, depth):
         r = self.rng.random()
         if depth <= 0 or r < 0.35:
+            if self.rng.random() < 0.12:
+                # a JSON document as the text of an element (quotes need no escaping in element text)
+                return Doc("json", self.rng.random() < 0.4, {"c": self.sstr(), "d": self.sstr()})
             return self.sstr()
         d = {}
         if self.rng.random() < 0.4:
@@ -756,7 +765,7 @@ def gen_paths(rng, tree):
             hop = "json-json-hop"
         if any(isinstance(at(tree, loc[:i]), Doc) and at(tree, loc[:i]).b64 for i in range(len(loc))):
             hop += "+b64"
-        form = rng.choice(["plain", "plain", "bracket", "wild", "wild", "desc", "desc2", "neg", "missing", "missing-hop"])
+        form = rng.choice(["plain", "plain", "bracket", "wild", "wild", "desc", "desc2", "neg", "missing", "missing-hop", "xnoidx"])
         sp = list(spec)
         jidx = [i for i, st in enumerate(sp) if st[0] in ("child", "bracket", "nth")]
         if form == "bracket":
@@ -785,6 +794,12 @@ def gen_paths(rng, tree):
                 sp[cut + 1] = ("child", sp[cut + 1][1]) if re.fullmatch(r"[A-Za-z_][A-Za-z0-9_]*", sp[cut + 1][1]) else sp[cut + 1]
             if sp[cut + 1][0] == "bracket":
                 continue
+        elif form == "xnoidx":
+            xi = [i for i, st in enumerate(sp) if st[0] == "xidx"]
+            if not xi:
+                continue
+            drop = set(rng.sample(xi, rng.randint(1, len(xi))))
+            sp = [st for i, st in enumerate(sp) if i not in drop]
         elif form == "neg":
             nth = [i for i in jidx if sp[i][0] == "nth"]
             if not nth:
